@@ -406,7 +406,8 @@ def parse_answer(line):
   n = int(t[pos]); pos += 1
   cls = [urllib.parse.unquote(x[1:]) for x in t[pos:pos + n]]; pos += n
   assert t[pos] == "G"
-  flags = {"leaked": t[pos + 1] == "1", "scopeTop": t[pos + 2] == "1", "genericAdded": t[pos + 3] == "1"}
+  flags = {"leaked": t[pos + 1] == "1", "scopeTop": t[pos + 2] == "1", "genericAdded": t[pos + 3] == "1",
+           "stubOK": t[pos + 4] == "1", "noDottedAny": t[pos + 5] == "1"}
   return {"imports": sorted(set(imports)), "decls": sorted(decls), "typevars": sorted(tvs), "classes": sorted(cls),
           "body": body.strip(), "flags": flags}
 
@@ -601,6 +602,7 @@ class Prog:
     self.imports = []  # typing names imported with `from typing import`
     self.import_typing = False
     self.classes = []
+    self.used = {}
 
 
 def gen_params(rng, method=None):
@@ -719,21 +721,42 @@ def gen_func(rng, prog, path, indent, method=None, depth=0):
   prog.defs.append(("func", list(path), name, ps, kind))
 
 
+def fresh_name(rng, prog, path, names):
+  """mostly a name not yet assigned in this scope (a second plain assignment to an annotated name is the
+  libcst qualifier leak, a characterised region: kept rare)"""
+  used = prog.used.setdefault(tuple(path), set())
+  cands = [n for n in names + [x + "2" for x in names] + [x + "3" for x in names] if n not in used]
+  n = rng.choice(cands) if cands and rng.random() < 0.97 else rng.choice(names)
+  used.add(n)
+  return n
+
+
 def gen_var(rng, prog, path, indent, names):
   pad = "    " * indent
-  form = rng.choice(["plain", "plain", "plain", "plain", "multi", "tuple", "re", "ann", "bare", "attr", "sub", "aug"])
-  n = rng.choice(names)
+  r = rng.random()
+  if r < 0.5:
+    form = "plain"
+  elif r < 0.5 + (0.04 if path else 0.12):
+    form = rng.choice(["multi", "tuple"])
+  elif r < 0.66:
+    form = "re" if rng.random() < 0.2 else "plain"
+  else:
+    form = rng.choice(["ann", "ann", "bare", "attr", "sub", "aug"])
+  n = fresh_name(rng, prog, path, names)
   v = rng.choice(VALUES)
+  if path and "for i in" in v and rng.random() < 0.85:
+    # a class-level comprehension makes pytype print the attribute `.0: Any` (invalid stub, known finding)
+    v = "[1, 2]"
   if form == "plain":
     prog.lines.append("%s%s = %s" % (pad, n, v))
     prog.defs.append(("var", list(path), n))
   elif form == "multi":
-    n2 = rng.choice(names)
+    n2 = fresh_name(rng, prog, path, names)
     prog.lines.append("%s%s = %s = %s" % (pad, n, n2, v))
     prog.defs.append(("var", list(path), n))
     prog.defs.append(("var", list(path), n2))
   elif form == "tuple":
-    n2 = rng.choice(names)
+    n2 = fresh_name(rng, prog, path, names)
     star = rng.random() < 0.2
     prog.lines.append("%s%s, %s%s = %s, %s%s" % (pad, n, "*" if star else "", n2, v, rng.choice(VALUES),
                                                ", 3" if star else ""))
@@ -836,7 +859,7 @@ def gen_program(rng):
       hdr = rng.choice(["if len(str(1)) > 0:", "for _i in range(2):", "try:", "while False:"])
       prog.lines.append(hdr)
       sub = Prog()
-      sub.imports, sub.classes = prog.imports, prog.classes
+      sub.imports, sub.classes, sub.used = prog.imports, prog.classes, prog.used
       if rng.random() < 0.5:
         gen_var(rng, sub, [], 1, ["x", "y", "p", "q"])
       else:
@@ -857,9 +880,9 @@ def gen_program(rng):
 
 def stub_type(rng, prog, variable=False, classes=()):
   r = rng.random()
-  if r < 0.04:
+  if r < 0.012:
     return "typing." + rng.choice(["Any", "Never", "List[int]", "Optional[str]"])
-  if r < 0.07 and classes:
+  if r < 0.02 and classes:
     return rng.choice(classes) + "." + rng.choice(["Inner", "B"])
   if r < 0.17 and classes:
     return rng.choice(classes)
@@ -873,7 +896,10 @@ def stub_type(rng, prog, variable=False, classes=()):
 def gen_stub(rng, prog):
   """independent stub for the definitions of `prog` (same qualified names), with the whole menu of
   Any/Never/trivial types, TypeVars, extra/missing definitions, mismatched parameter lists."""
-  classes = [d[2] for d in prog.defs if d[0] == "class" and not d[1]]
+  allc = [d[2] for d in prog.defs if d[0] == "class"]
+  # class names usable in annotations: top-level and not also the name of a nested class (libcst resolves
+  # a name through the enclosing class scopes of the stub; the model does not)
+  classes = [d[2] for d in prog.defs if d[0] == "class" and not d[1] and allc.count(d[2]) == 1]
   tree = {}  # path tuple -> list of lines (without indentation)
 
   def emit(path, line):
@@ -891,8 +917,8 @@ def gen_stub(rng, prog):
       if m < 0.06 and ps:
         ps.pop(rng.randrange(len(ps)))
       elif m < 0.12:
-        ps.insert(rng.randrange(len(ps) + 1) if not any(k in ("st", "kw", "ss") for _, k, _ in ps) else 0,
-                  ("extra", "p", None))
+        npos_ = len([q for q in ps if q[1] in ("po", "p")])
+        ps.insert(npos_, ("extra", "p", None))
       elif m < 0.2 and ps:
         i = rng.randrange(len(ps))
         if ps[i][0]:
@@ -901,6 +927,9 @@ def gen_stub(rng, prog):
         ps = [p for p in ps if p[1] != "st" or any(q[1] == "kw" for q in ps)]
       if not any(q[1] == "kw" for q in ps):
         ps = [q for q in ps if not (q[1] == "st" and q[0] == "")]
+      elif not any(q[1] == "st" for q in ps):
+        i = min(j for j, q in enumerate(ps) if q[1] == "kw")
+        ps.insert(i, ("", "st", None))
       # a default may not precede a non-default positional parameter
       seen = False
       fixed = []
@@ -936,11 +965,11 @@ def gen_stub(rng, prog):
     emit([], "def extra_fn(a: int) -> %s: ..." % stub_type(rng, prog, classes=classes))
   if rng.random() < 0.2:
     emit([], "extra_var: %s" % stub_type(rng, prog, classes=classes))
-  if rng.random() < 0.07:
+  if rng.random() < 0.03:
     tree[("Extra",)] = ["q: %s" % stub_type(rng, prog), "def m(self) -> int: ..."]
   generic = set()
   for c in list(tree):
-    if len(c) == 1 and rng.random() < 0.06:
+    if len(c) == 1 and rng.random() < 0.02:
       generic.add(c)
   unused_tv = rng.random() < 0.1
 
@@ -973,3 +1002,17 @@ def gen_stub(rng, prog):
   if unused_tv:
     hdr.append("U = TypeVar('U')")
   return "\n".join(hdr + body) + "\n"
+
+
+def stub_has_dotted_any(pyi_src):
+  """region of the `typing.Any` finding: some return / variable annotation of the stub is a dotted
+  name ending in Any/Never (the pre-filter only recognises the bare names)"""
+  for n in ast.walk(ast.parse(pyi_src)):
+    a = None
+    if isinstance(n, (ast.FunctionDef, ast.AsyncFunctionDef)):
+      a = n.returns
+    elif isinstance(n, ast.AnnAssign):
+      a = n.annotation
+    if isinstance(a, ast.Attribute) and a.attr in ("Any", "Never"):
+      return True
+  return False
